@@ -154,6 +154,63 @@ def real_chain(transition, state_id) -> tuple[str, list[str]]:
     return req, [*sorted(out), "end"]
 
 
+def descr_w(e) -> str:
+    """Descriptor of the Wigner rotation matrix tree (`compute_wigner_rotation_matrix`): strict — anything
+    that is not a MatrixMultiplication of BoostMatrix nodes over (boosted) sums of momentum symbols prints
+    as `(expr …)` and therefore disagrees with the model."""
+    from ampform.kinematics import lorentz as lz
+    from ampform.sympy._array_expressions import (
+        ArrayMultiplication,
+        ArraySum,
+        ArraySymbol,
+        MatrixMultiplication,
+    )
+
+    if isinstance(e, MatrixMultiplication):
+        return "(mmul " + " ".join(descr_w(a) for a in e.args) + ")"
+    if isinstance(e, lz.BoostMatrix):
+        extra = _nev(e.args[1]) if len(e.args) > 1 else ""
+        return "(B " + descr_w(e.args[0]) + ")" + extra
+    if isinstance(e, lz.NegativeMomentum):
+        return "(negp " + descr_w(e.args[0]) + ")"
+    if isinstance(e, ArrayMultiplication):
+        return "(amul " + " ".join(descr_w(a) for a in e.args) + ")"
+    if isinstance(e, ArraySum):
+        return "(sum " + " ".join(descr_w(a) for a in e.args) + ")"
+    if isinstance(e, ArraySymbol):
+        return str(e.name if hasattr(e, "name") else e)
+    return "(expr " + str(e).replace(" ", "") + ")"
+
+
+def real_wchain(topology, state_id) -> tuple[str, list[str]]:
+    """(request, canonical reply): the Wigner rotation matrix of final state `state_id`, and — checked here,
+    on the real objects — that `compute_wigner_angles` slices exactly that matrix at the documented entries."""
+    import sympy as sp
+
+    from ampform.kinematics.angles import compute_wigner_angles, compute_wigner_rotation_matrix
+    from ampform.kinematics.lorentz import compute_boost_chain, create_four_momentum_symbols
+    from ampform.sympy._array_expressions import ArraySlice
+    from tools.translate import c04_ext
+
+    momenta = create_four_momentum_symbols(topology)
+    w = compute_wigner_rotation_matrix(topology, momenta, state_id)
+    n = len(compute_boost_chain(topology, momenta, state_id))
+    rep = f"W {n} {descr_w(w)}"
+    angles = compute_wigner_angles(topology, momenta, state_id)
+    slices = []
+    for sym, expr in angles.items():
+        for s in sorted(expr.atoms(ArraySlice), key=str):
+            idx = tuple(s.args[1])
+            ok = (s.args[0] == w and len(idx) == 3 and c04_ext._full_slice(idx[0])
+                  and all(isinstance(k, (int, sp.Integer)) for k in idx[1:]))
+            slices.append((sym.name.split("_")[0], tuple(int(k) for k in idx[1:]) if ok else "foreign"))
+    rep_s = "slices " + " ".join(f"{a}:{b}" for a, b in sorted(slices, key=str))
+    return f"wchain {state_id}", [rep, rep_s]
+
+
+EXPECTED_WIGNER_SLICES = ("slices alpha:(3, 1) alpha:(3, 2) beta:(3, 3) gamma:(1, 3) gamma:(2, 3)")
+
+
 # ----------------------------------------------------------------------------- inputs
 
 
@@ -210,6 +267,20 @@ def run(chk: common.Check, rng, tier: str, reactions: dict) -> dict:
                 if sib and top.edges[sib[0]].ending_node_id is not None:
                     stats["spectators_recoiling_against_a_resonance"] += 1
             chk.count(("oppsign", label, sid))
+        # Wigner rotation matrix of every final state (axis-angle alignment): boost chain wiring
+        for sid in sorted(top.outgoing_edge_ids):
+            req, (rep, rep_s) = real_wchain(top, sid)
+            lines.append(req)
+            expect.append([rep])
+            labels.append(f"{label} {req}")
+            stats["wigner_matrices"] = stats.get("wigner_matrices", 0) + 1
+            depth = rep.split(" ")[1]
+            stats.setdefault("wigner_chain_lengths", {})
+            stats["wigner_chain_lengths"][depth] = stats["wigner_chain_lengths"].get(depth, 0) + 1
+            if rep_s != EXPECTED_WIGNER_SLICES:
+                chk.broken_correspondence("compute_wigner_angles slices", {"case": f"{label} state {sid}",
+                                                                           "real": rep_s, "expected": EXPECTED_WIGNER_SLICES})
+            chk.count(("wchain", label, sid))
         if with_chains:
             dt = dummy_transition(top)
             for sid in sorted(top.outgoing_edge_ids):
